@@ -13,7 +13,7 @@ from jsonvals import ABSENT, NA, abst, conc  # noqa: E402
 
 import pjrpc  # noqa: E402
 from pjrpc.common import UNSET, exceptions  # noqa: E402
-from pjrpc.server import AsyncDispatcher, Dispatcher  # noqa: E402
+from pjrpc.server import AsyncDispatcher, Dispatcher, ViewMixin  # noqa: E402
 
 logging.disable(logging.CRITICAL)
 
@@ -265,6 +265,17 @@ def build(cfg, ev):
     if cfg['kind'] == 'asyncseq':
         kwargs['concurrent_batch'] = False
     d = AsyncDispatcher(**kwargs) if is_async else Dispatcher(**kwargs)
+    class Boom(ViewMixin):
+        """a class based view that cannot be built: calls to its methods fail while they are being bound"""
+
+        def __init__(self, context=None):
+            raise RuntimeError(MARKER)
+
+    def never(self, a=None, b=None):
+        return body('m_int', {'a': a, 'b': b})
+    never.__name__ = 'int'
+    setattr(Boom, 'int', never)
+    d.registry.view(Boom)
     d.add(ok, 'ok')
     d.add(one, 'one')
     d.add(perr_m, 'perr')
